@@ -25,9 +25,9 @@ na = [{"property_id": p, "reason": NOT_APPLICABLE.get(p, "check under constructi
       for p in props if p not in {c["property_id"] for c in checks}]
 m = {
     "version": 1,
-    "setup_cmd": "cd /verif/harness && cargo build --offline && cargo build --offline --features test-utils && cargo build --offline --features deadlock-detection && cargo build --offline --features metrics && cargo build --offline --features deadlock-detection,test-utils && cargo build --offline --features tracing,metrics,test-utils,deadlock-detection && cargo build --offline",
+    "setup_cmd": "cd /verif/harness && cargo build --offline && cargo build --offline --features test-utils && cargo build --offline --features deadlock-detection && cargo build --offline --features metrics && cargo build --offline --features deadlock-detection,test-utils && cargo build --offline --features tracing,metrics,test-utils,deadlock-detection && cargo build --offline && cd /repo && CARGO_TARGET_DIR=/verif/harness/target_repotests RUSTFLAGS='--cfg rsactor_verif --check-cfg cfg(rsactor_verif)' cargo test --workspace --offline --locked --all-features --tests --no-run",
     "hooks": {"guard": "--cfg rsactor_verif",
-              "enable": "rustflags in /verif/harness/.cargo/config.toml: --cfg rsactor_verif (the harness depends on /repo by path, so every check rebuilds the current working tree with the hooks on)",
+              "enable": "rustflags in /verif/harness/.cargo/config.toml: --cfg rsactor_verif (the harness depends on /repo by path, so every check rebuilds the current working tree with the hooks on); the repository's own test suite is built the same way (RUSTFLAGS, target dir /verif/harness/target_repotests) and logs lifecycle events when RSACTOR_VERIF_TRACE names a file",
               "baseline_off_cmd": "cd /repo && cargo test --workspace --no-fail-fast --offline",
               "source_commits": HOOK_COMMITS, "add_only": True},
     "engines": [
